@@ -79,24 +79,20 @@ theorem separateModes_324 {modes : List (Char × Option Str)} (hm : ∀ e ∈ mo
     exact (shaped_of_entry (hm e he)).2 a ha
 
 theorem skip324_sub : ∀ c ∈ Gen.skip324, c ∈ prefixModes := by
-  rw [tracked_table_ok.2.2.2.2.2.2.2.2.2]; decide
+  rw [tracked_table_ok.2.2.2.2.2.2.2.2.2.2]; decide
 
 theorem entry_not_special {e : Char × Option Str} (h : ModeEntryOK e) : e.1 ∉ Gen.skip324 ∧ e.1 ∉ Gen.setModeForbidden := by
-  rw [tracked_table_ok.2.2.2.2.2.2.2.1]
-  rcases h with ⟨hcls, _⟩ | ⟨hflag, _⟩
-  · constructor
-    · intro hs
-      have := skip324_sub _ hs
-      revert hcls this
-      generalize e.1 = c
-      intro hcls this
-      have : ∀ c ∈ keyModes ++ limitModes, c ∉ prefixModes := by decide
-      exact this c hcls ‹_›
+  have hnt : e.1 ∉ Gen.trackedModes := by
+    rcases h with ⟨hcls, _⟩ | ⟨hflag, _⟩
     · rw [tracked_eq]; exact class_not_tracked _ hcls
-  · constructor
-    · intro hs
-      exact flag_not_class hflag (by simp only [List.mem_append]; exact Or.inl (Or.inl (Or.inl (skip324_sub _ hs))))
     · exact flag_not_tracked hflag
+  refine ⟨?_, fun hs => hnt (tracked_table_ok.2.2.2.2.2.2.2.2.1 _ hs)⟩
+  intro hs
+  have hp := skip324_sub _ hs
+  rcases h with ⟨hcls, _⟩ | ⟨hflag, _⟩
+  · have : ∀ c ∈ keyModes ++ limitModes, c ∉ prefixModes := by decide
+    exact this _ hcls hp
+  · exact flag_not_class hflag (by simp only [List.mem_append]; exact Or.inl (Or.inl (Or.inl hp)))
 
 theorem run324 (modes : List (Char × Option Str)) (hm : ∀ e ∈ modes, ModeEntryOK e) (ch : Chan) :
     runSteps Chan.step324 ch ((as324 modes).map tr) =
